@@ -8,26 +8,6 @@ import AttrsModel.Model.Init
 namespace Attrs.C01
 open Attrs.Init
 
-/-- the positional parameters that receive the call's positional arguments -/
-def posTaken (ps : List Param) (c : Call) : List Param := (ps.filter (!·.kwOnly)).take c.pos.length
-
-def supplied (ps : List Param) (c : Call) (p : Param) : Bool :=
-  (posTaken ps c).any (·.name == p.name) || c.kw.any (·.1 == p.name)
-
-/-- a call is well-formed iff: not too many positional arguments, every keyword names a parameter,
-    no parameter gets two values, no mandatory parameter is left without one -/
-def callOk (ps : List Param) (c : Call) : Bool :=
-  c.pos.length ≤ (ps.filter (!·.kwOnly)).length &&
-  c.kw.all (fun kv => ps.any (·.name == kv.1)) &&
-  c.kw.all (fun kv => !(posTaken ps c).any (·.name == kv.1)) &&
-  ps.all (fun p => p.dflt.isSome || supplied ps c p)
-
-/-- the value passed for parameter `n`, if any: positional first, then keyword -/
-def passed (ps : List Param) (c : Call) (n : String) : Option Val :=
-  match lookup n ((posTaken ps c).map (·.name) |>.zip c.pos) with
-  | some v => some v
-  | none => lookup n c.kw
-
 /-- the raw (pre-converter) value of a participating field: the argument, else the declared default,
     else a fresh factory result (given the instance if the factory asked for it) -/
 def rawOf (attrs : List Attr) (c : Call) (a : Attr) : Val :=
@@ -49,12 +29,13 @@ def misplaced (r : RunIn) (a : Attr) : Bool :=
 def known (c : Case) : List String :=
   if c.eff.attrs.any (misplaced c.eff) then ["K3"] else []
 
-def distinct (l : List String) : Bool := l.eraseDups.length == l.length
+def distinct (l : List String) : Bool := decide l.Nodup
 
 def wf (c : Case) : Bool :=
   let r := c.eff
   r.fault.isNone &&
   distinct (r.attrs.map (·.name)) &&
+  r.attrs.all (·.name != Generated.hashCacheField) &&
   distinct ((r.attrs.filter (·.init)).map (·.alias)) &&
   distinct (c.call.kw.map (·.1)) &&
   c.call.pos.all (· != NOTHING) && c.call.kw.all (·.2 != NOTHING) &&
